@@ -115,14 +115,26 @@ def instantiate(shape, ids, rng, in_kind=None):
         if in_kind == "auto" and rng.random() < 0.3:
             return ("invoke", ids.next())
         return ("call", ids.next(), rng.choice(STYLES), rng.random() < 0.3)
-    return ("region", shape[0], [instantiate(c, ids, rng, shape[0]) for c in shape[1]])
+    return dup_calls(("region", shape[0], [instantiate(c, ids, rng, shape[0]) for c in shape[1]]), rng)
+
+
+def dup_calls(region, rng):
+    """sometimes repeat a call of the block verbatim (same callee, arguments and keywords): each call
+    still has to yield its own member"""
+    kids = region[2]
+    calls = [c for c in kids if c[0] in ("call", "invoke")]
+    if calls and rng.random() < 0.3:
+        kids = list(kids)
+        kids.insert(rng.randrange(0, len(kids) + 1), rng.choice(calls))
+        return (region[0], region[1], kids)
+    return region
 
 
 def rand_tree(rng, ids, depth, width, in_kind=None):
     if depth == 0 or rng.random() < 0.35:
         return instantiate("c", ids, rng, in_kind)
     k = rng.choice(["parallel", "auto"])
-    return ("region", k, [rand_tree(rng, ids, depth - 1, width, k) for _ in range(rng.randrange(1, width + 1))])
+    return dup_calls(("region", k, [rand_tree(rng, ids, depth - 1, width, k) for _ in range(rng.randrange(1, width + 1))]), rng)
 
 
 def wrap(rng, ids, tree):
